@@ -221,18 +221,38 @@ Definition yield_pc (p : pc) : bool :=
   | _ => false
   end.
 
-Fixpoint run_thread (strict : bool) (fuel : nat) (s : state) (i : nat) : state :=
+(** Go iterates over a map in an unspecified order: whenever a Query has just
+    computed or resumed the list of children it still has to visit, every
+    rotation of that list is a possible continuation (rotating again after
+    each child yields every order). *)
+Fixpoint rotations_from {A} (pre l : list A) : list (list A) :=
+  match l with
+  | [] => []
+  | x :: l' => (l ++ pre) :: rotations_from (pre ++ [x]) l'
+  end.
+
+Definition variants (s : state) (i : nat) : list state :=
+  match nth_error (thr s) i with
+  | Some (TH o (PQNext acc ((x :: y :: todo) :: fr)) hs) =>
+      map (fun td => ST (hp s) (set_nth (thr s) i (TH o (PQNext acc (td :: fr)) hs)))
+          (rotations_from [] (x :: y :: todo))
+  | _ => [s]
+  end.
+
+Definition stops (s : state) (i : nat) : bool :=
+  match nth_error (thr s) i with
+  | Some t => park_pc (tpc t) || is_done (tpc t) || yield_pc (tpc t)
+  | None => true
+  end.
+
+Fixpoint run_thread (strict : bool) (fuel : nat) (s : state) (i : nat) : list state :=
   match fuel with
-  | O => s
+  | O => [s]
   | S f =>
       match step_gen strict s i with
-      | None => s
+      | None => [s]
       | Some s' =>
-          match nth_error (thr s') i with
-          | Some t => if park_pc (tpc t) || is_done (tpc t) || yield_pc (tpc t) then s'
-                      else run_thread strict f s' i
-          | None => s'
-          end
+          flat_map (fun v => if stops v i then [v] else run_thread strict f v i) (variants s' i)
       end
   end.
 
@@ -254,15 +274,11 @@ Definition run_fuel : nat := 4000.
 (** a reader that waits only because a writer has announced itself is
     admitted (the real RWMutex does this for readers that were already waiting
     when the previous writer unlocked), then runs on *)
-Definition barge (s : state) (i : nat) : state :=
+Definition barge (s : state) (i : nat) : list state :=
   match step s i with
   | Some s' =>
-      match nth_error (thr s') i with
-      | Some t => if park_pc (tpc t) || is_done (tpc t) || yield_pc (tpc t) then s'
-                  else run_thread true run_fuel s' i
-      | None => s'
-      end
-  | None => s
+      flat_map (fun v => if stops v i then [v] else run_thread true run_fuel v i) (variants s' i)
+  | None => [s]
   end.
 
 (** all stable states reachable by letting runnable threads run, one at a
@@ -274,9 +290,9 @@ Fixpoint settle (fuel : nat) (s : state) (st : list bool) : list state :=
   | S f =>
       let sf := free_threads true s st in
       (if is_nil sf then [s] else [])
-      ++ flat_map (fun i => settle f (run_thread true run_fuel s i) st) sf
+      ++ flat_map (fun i => flat_map (fun v => settle f v st) (run_thread true run_fuel s i)) sf
       ++ flat_map (fun i => if existsb (Nat.eqb i) sf then []
-                            else settle f (barge s i) st)
+                            else flat_map (fun v => settle f v st) (barge s i))
                   (free_threads false s st)
   end.
 
@@ -292,8 +308,8 @@ Definition advance (prog : list sop) (c : cfg) (i : nat) : list cfg :=
          end in
   let st' := set_nth (cstarted c) i true in
   (* leave the park point / PStart: one step that is always enabled *)
-  let s2 := match step s1 i with Some s' => s' | None => s1 end in
-  map (fun s' => CFG s' st') (settle 24 s2 st').
+  let s2 := match step s1 i with Some s' => variants s' i | None => [s1] end in
+  map (fun s' => CFG s' st') (flat_map (fun v => settle 24 v st') s2).
 
 (** status of a thread: 0 not started, 1 parked at a hook, 2 blocked in a mutex, 3 finished *)
 Definition status_of (c : cfg) (i : nat) : nat :=
